@@ -45,6 +45,7 @@ mkscope(struct scope *parent)
 	s->breaklabel = parent->breaklabel;
 	s->continuelabel = parent->continuelabel;
 	s->switchcases = parent->switchcases;
+	s->vm = parent->vm;
 	s->parent = parent;
 
 	return s;
